@@ -174,7 +174,7 @@ def reference(desc, role, seq):
     if name == "UniquifyAllKmers":
         k = kw["k"]
         ref = kw.get("reference")
-        ra, rb = (a, b) if ref in ("here", "same") else (0, n)
+        ra, rb = (a, b) if ref in ("here", "same") else ((ref[0], ref[1]) if isinstance(ref, (tuple, list)) else (0, n))
         irc = kw.get("include_reverse_complement", True)
 
         def canon(i):
